@@ -7,7 +7,7 @@ from harness import steps, world as W
 from lib.core import qlit, blit, olit, zlit
 from checks.acct import Ctx, Skip, q, pos_lit, pcfg_lit, eff_lit, ZERO_POS, close, dint_of, open_orders_of
 
-PRELUDE = 'From RQ Require Import Model.Num Model.Costs Model.Position Model.Account Model.Matcher Model.Order Model.Broker Model.Check.\nOpen Scope Q_scope.\n'
+PRELUDE = 'From RQ Require Import Model.Num Model.Costs Model.Position Model.Account Model.Matcher Model.MatcherRun Model.Order Model.Broker Model.Check.\nOpen Scope Q_scope.\n'
 
 TICK = {'CS': 0.01, 'ETF': 0.001}
 
@@ -141,6 +141,36 @@ def broker_case(cx, trace):
                 dict(n_ops=len(ops), n_calls=len(calls), immediate=immediate))
 
 
+def turnover_case(cx, trace, spans):
+    """the matcher's per-instrument turnover over the whole run: cleared when a BAR / BEFORE_TRADING event begins, raised by every fill
+    (Model/MatcherRun.v turnover_run); the observed value before and after every matcher call must be the model's"""
+    ids = {}
+    end_of = dict(spans)
+    obs = []
+    ncalls = nfill = 0
+    for i, m in enumerate(trace):
+        if m['k'] == 'ev0' and m['ev'] in ('BAR', 'BEFORE_TRADING'):
+            if not obs or obs[-1] != 'TClear':
+                obs.append('TClear')
+        elif m['k'] == 'match0' and i in end_of:
+            m1 = trace[end_of[i]]
+            oid = m['order']['oid']
+            k = ids.setdefault(oid, len(ids))
+            fill = 0.0
+            for j in range(i + 1, end_of[i]):
+                t = trace[j]
+                if t['k'] == 'ev0' and t['ev'] == 'TRADE' and t['payload']['trade']['order_id'] == m['order']['id']:
+                    fill += t['payload']['trade']['qty']
+            pre = float((m['snap'].get('turnover') or {}).get(oid, 0))
+            post = float((m1['snap'].get('turnover') or {}).get(oid, 0))
+            obs.append('TCall %d%%nat %s %s %s' % (k, q(pre), q(fill), q(post)))
+            ncalls += 1
+            nfill += fill > 0
+    if ncalls:
+        cx.case('match.turnover', 'chk_turnover_run [%s]' % '; '.join(obs), dict(n_calls=ncalls, n_fills=nfill, instruments=len(ids)))
+        cx.keys.add(repr(('T', min(ncalls, 5), min(nfill, 5), min(len(ids), 3), cx.cfg['base']['frequency'])))
+
+
 def analyse(scn, out):
     cx = Ctx(scn, out)
     trace = cx.trace
@@ -159,6 +189,7 @@ def analyse(scn, out):
             placed_in_auction.add(m['payload']['order']['id'])
     calls_so_far = {}
     broker_case(cx, trace)
+    turnover_case(cx, trace, spans)
     # ---- every matcher call
     for i0, i1 in spans:
         m0, m1 = trace[i0], trace[i1]
